@@ -114,6 +114,50 @@ macro_rules! cproof {
         fn $name() $body
     };
 }
+/// C12: the SEIPDv1 prefix the encryptor emits is block-size random octets followed by a repetition of the last two
+/// (RFC 9580 5.13.1 "quick check"), for every value the RNG can deliver; CFB is the identity here so the plaintext
+/// layout is observable
+struct AnyRng;
+impl rand::RngCore for AnyRng {
+    fn next_u32(&mut self) -> u32 {
+        kani::any()
+    }
+    fn next_u64(&mut self) -> u64 {
+        kani::any()
+    }
+    fn fill_bytes(&mut self, dest: &mut [u8]) {
+        let mut i = 0;
+        while i < dest.len() {
+            dest[i] = kani::any();
+            i += 1;
+        }
+    }
+    fn try_fill_bytes(&mut self, dest: &mut [u8]) -> Result<(), rand::Error> {
+        self.fill_bytes(dest);
+        Ok(())
+    }
+}
+impl rand::CryptoRng for AnyRng {}
+
+fn seipdv1_prefix() {
+    let key = [7u8; 16];
+    let src: &[u8] = &[];
+    match okf(StreamEncryptorInner::<Aes128, &[u8]>::new(AnyRng, src, &key[..])) {
+        None => assert!(false, "C12: SEIPDv1 encryptor construction failed"),
+        Some(st) => {
+            let st = core::mem::ManuallyDrop::new(st);
+            match &*st {
+                StreamEncryptorInner::Prefix { prefix, .. } => {
+                    assert!(prefix.len() == 18, "C12: SEIPDv1 prefix is not block size + 2 octets");
+                    assert!(prefix[16] == prefix[14] && prefix[17] == prefix[15], "C12: SEIPDv1 quick-check octets are not a repetition of the last two random octets");
+                }
+                _ => assert!(false, "C12: SEIPDv1 encryptor does not start in the prefix state"),
+            }
+        }
+    }
+}
+cproof!(c12_seipdv1_prefix_layout, 66, { seipdv1_prefix() });
+
 cproof!(c09_cfb_enc_after_prefix_0_b1, 66, { after_prefix::<0, 1>() });
 cproof!(c09_cfb_enc_after_prefix_0_b4, 66, { after_prefix::<0, 4>() });
 // UNREGISTERED PROBES (time out at 900 s: with a non-empty source BytesMut's length after truncate(read) is no
